@@ -7,6 +7,7 @@
      pub     the reply equals the number of deliveries; every live connection received exactly the
              deliveries the abstract state prescribes - nothing else, nothing twice
      chans / numsub / numpat         introspection of the queried member
+     stall   an UNSUBSCRIBE while a publication is under way: no message after its acknowledgement, count = deliveries
      conc    two publishers at once: every subscription sees each publisher's messages exactly
              once and in that publisher's order *)
 EXTENDS PubSub, Integers
@@ -72,8 +73,18 @@ ConcEv == /\ Ev.t = "conc" /\ UNCHANGED <<subs, alive, seq, mo>>
 \* subscription the command did not name, a message before the acknowledgement, ...)
 AnomalyEv == /\ Ev.t = "anomaly" /\ UNCHANGED <<subs, alive, seq, mo>>
              /\ Fail("the member sent something the protocol does not allow here: " \o Ev.detail)
+\* an UNSUBSCRIBE sent while a publication was under way (the member was writing to a subscriber that does not read):
+\* frames = what the unsubscribing connection was sent from then on, up to a pong requested after PUBLISH had returned
+AckPos == CHOOSE j \in 1..Len(Ev.frames) : Ev.frames[j].k = "unsubscribe"
+StallEv == /\ Ev.t = "stall" /\ UNCHANGED <<subs, alive, seq, mo>>
+           /\ IF ~\E j \in 1..Len(Ev.frames) : Ev.frames[j].k = "unsubscribe" THEN Fail("UNSUBSCRIBE was never acknowledged")
+              ELSE IF \E j \in 1..Len(Ev.frames) : j > AckPos /\ Ev.frames[j].k = "message"
+                   THEN Fail("a message reached a subscription after its UNSUBSCRIBE had been acknowledged")
+              ELSE IF Ev.count # Ev.deliveries
+                   THEN Fail("PUBLISH answered " \o ToString(Ev.count) \o ", deliveries " \o ToString(Ev.deliveries))
+              ELSE Ok
 TNext == /\ i <= Len(Trace) /\ i' = i + 1
-         /\ (Reset \/ AnomalyEv \/ SubEv \/ UnsubEv \/ UnsubAllEv \/ DiscEv \/ ReopenEv \/ PubEv \/ ChansEv \/ NumsubEv \/ NumpatEv \/ ConcEv)
+         /\ (Reset \/ StallEv \/ AnomalyEv \/ SubEv \/ UnsubEv \/ UnsubAllEv \/ DiscEv \/ ReopenEv \/ PubEv \/ ChansEv \/ NumsubEv \/ NumpatEv \/ ConcEv)
          /\ UNCHANGED <<nops, log, gen>>
 TSpec == i = 1 /\ err = "" /\ seq = 0 /\ mo = <<>> /\ subs = {} /\ alive = {} /\ gen = <<>> /\ nops = 0 /\ log = <<>>
          /\ [][TNext]_<<tvars, vars>>
